@@ -254,6 +254,10 @@ func (m *multiReader) Read(ctx context.Context, out frame.Frame) (n int, err err
 		switch {
 		case err == sliceio.EOF:
 			m.q = m.q[1:]
+			if n > 0 {
+				// Read may return EOF together with the last n records.
+				return n, nil
+			}
 		case err != nil:
 			m.err = err
 			return n, err
